@@ -17,6 +17,7 @@ import (
 	"fmt"
 	"io"
 	"os"
+	"runtime"
 	"strings"
 	"sync"
 	"time"
@@ -948,6 +949,29 @@ func (e *engine) runHandlePopulation(full bool) {
 		c := e.newCase(l, r, beh, chunks, mc.Gen, mc.Expect, mc.WantPid, mc.WantRest)
 		e.runHandle(c, sides[i%2])
 	}
+	// 4b. history independence: the outcome for a header must not depend on the streams handled before
+	// in this process (pooled / reused decoder state). Under GOMAXPROCS(1) (which makes sync.Pool
+	// deterministic) a VALID stream is handled and accepted, then, on the same controller, each
+	// state-sensitive malformed class; the expectations are those of the class alone.
+	func() {
+		prev := runtime.GOMAXPROCS(1)
+		defer runtime.GOMAXPROCS(prev)
+		sensitive := []int{16, 4, 0, 6, 3, 16, 14, 15}
+		for round := 0; round < 3*e.a.Scale; round++ {
+			for k, cls := range sensitive {
+				s := sides[(round+k)%2]
+				pid := append(e.honestPid(3+e.rng.Intn(12)), []byte(fmt.Sprintf("/hist%d.%d", round, k))...)
+				l, r := e.freshPeers()
+				payload := e.rng.Bytes(e.rng.Intn(4))
+				c := e.newCase(l, r, "accepts", e.chunkAny(append(marshalRef(pid), payload...)), "history/valid-first", "ok", pid, payload)
+				e.runHandle(c, s)
+				mc := hdrgen.Malformed(e.rng, cls, e.max)
+				l, r = e.freshPeers()
+				c = e.newCase(l, r, "accepts", e.rng.Chunk(mc.Stream, e.rng.Intn(4)), "history/"+mc.Gen, mc.Expect, mc.WantPid, mc.WantRest)
+				e.runHandle(c, s)
+			}
+		}
+	}()
 	// 5. peers: empty source, empty remote, local == remote, the controller's own peer on either side
 	special := [][2]peer.ID{{"", "verif-remote-only"}, {"verif-local-only", ""}, {"", ""}, {"verif-same", "verif-same"},
 		{e.A.peerID, e.B.peerID}, {e.B.peerID, e.A.peerID}, {e.A.peerID, e.A.peerID}}
